@@ -243,7 +243,7 @@ func (g *genCtx) value(t Ty, path string) interface{} {
 		return map[string]interface{}{"u": int64(h % 100)}
 	}
 	if g.p.IsFileType(t.Base) {
-		if g.cfg.AllowNil && h%4 == 1 && strings.ContainsAny(path, "[{") {
+		if g.cfg.AllowNil && ((h%4 == 1 && strings.ContainsAny(path, "[{")) || h%7 == 2) {
 			// a missing file in a collection of files (real files follow it)
 			return nil
 		}
